@@ -12,12 +12,24 @@ pub fn fails<E: Engine>(trace: &E::T, prop: &str, oracle: &str) -> Option<Violat
 }
 
 pub fn shrink<E: Engine>(trace: &E::T, prop: &str, oracle: &str, budget: usize) -> (E::T, usize) {
+    shrink_with::<E>(trace, budget, &mut |t| fails::<E>(t, prop, oracle).map(|v| v.step))
+}
+
+/// Minimisation of a trace that kills the process: every candidate runs in a child process.
+pub fn shrink_abort<E: Engine>(trace: &E::T, budget: usize) -> (E::T, usize) {
+    shrink_with::<E>(trace, budget, &mut |t| crate::check::run_isolated::<E>(t, false).is_err().then_some(usize::MAX))
+}
+
+/// `fails` returns the step of the violation (or `usize::MAX` when unknown) while the failure persists.
+pub fn shrink_with<E: Engine>(trace: &E::T, budget: usize, fails_at: &mut dyn FnMut(&E::T) -> Option<usize>) -> (E::T, usize) {
     let mut best = trace.clone();
     let mut runs = 0usize;
-    if let Some(v) = fails::<E>(&best, prop, oracle) {
-        let t = E::cut_after(&best, v.step);
+    let mut fails = |t: &E::T, _: &str, _: &str| fails_at(t);
+    let (prop, oracle) = ("", "");
+    if let Some(step) = fails(&best, prop, oracle).filter(|s| *s != usize::MAX) {
+        let t = E::cut_after(&best, step);
         runs += 1;
-        if E::len(&t) < E::len(&best) && fails::<E>(&t, prop, oracle).is_some() {
+        if E::len(&t) < E::len(&best) && fails(&t, prop, oracle).is_some() {
             best = t;
         }
     }
@@ -32,7 +44,7 @@ pub fn shrink<E: Engine>(trace: &E::T, prop: &str, oracle: &str, budget: usize) 
             let end = (start + chunk).min(len);
             let t = E::without(&best, start, end);
             runs += 1;
-            if E::len(&t) > 0 && fails::<E>(&t, prop, oracle).is_some() {
+            if E::len(&t) > 0 && fails(&t, prop, oracle).is_some() {
                 best = t;
                 n = (n - 1).max(2);
                 reduced = true;
@@ -53,7 +65,7 @@ pub fn shrink<E: Engine>(trace: &E::T, prop: &str, oracle: &str, budget: usize) 
         changed = false;
         for t in E::simplify(&best) {
             runs += 1;
-            if fails::<E>(&t, prop, oracle).is_some() {
+            if fails(&t, prop, oracle).is_some() {
                 best = t;
                 changed = true;
                 break;
@@ -65,7 +77,7 @@ pub fn shrink<E: Engine>(trace: &E::T, prop: &str, oracle: &str, budget: usize) 
     while i < E::len(&best) && runs < budget {
         let t = E::without(&best, i, i + 1);
         runs += 1;
-        if E::len(&t) > 0 && fails::<E>(&t, prop, oracle).is_some() {
+        if E::len(&t) > 0 && fails(&t, prop, oracle).is_some() {
             best = t;
         } else {
             i += 1;
